@@ -50,7 +50,8 @@ func (e *Engine) Resync(firstNewMsg int, dropNewMsgs bool) bool {
 						return false
 					}
 					nonce := new(big.Int).SetBytes([]byte(rest))
-					if (len(rest) > 0) != (t.Meta != nil) || !nonce.IsUint64() || (t.Meta != nil && t.Meta.Nonce != nonce.Uint64()) {
+					carrier := len(rest) > 0 && t.Meta == nil && t.Value.Sign() == 0 && isFrozenProps(t.Properties) // freeze flag of a (token, nonce) not held
+					if ((len(rest) > 0) != (t.Meta != nil) && !carrier) || !nonce.IsUint64() || (t.Meta != nil && t.Meta.Nonce != nonce.Uint64()) {
 						return false
 					}
 					ma.Entries[sfx] = &Entry{Value: new(big.Int).Set(t.Value), Frozen: isFrozenProps(t.Properties), Meta: t.Meta.Clone()}
@@ -128,6 +129,9 @@ func afterRecord(e *Engine, rec *CallRecord, props []string, resyncs *int) (mine
 	for _, cl := range rec.Clauses {
 		if hasProp(cl, props) {
 			mine = append(mine, cl)
+		} else if cl.NoCut {
+			// a listed finding of another property that the model itself describes: nothing to rebuild
+			continue
 		} else {
 			foreign = append(foreign, cl)
 		}
